@@ -581,7 +581,9 @@ class BackendZ3(Backend):
         if decl_num not in z3_op_nums:
             raise ClaripyError(f"unknown decl kind {decl_num}")
         if op_map.get(z3_op_nums[decl_num]) is None:
-            raise ClaripyError(f"unknown decl op {z3_op_nums[decl_num]}")
+            # claripy has no AST for this Z3 operator (e.g. sequence and integer operators): this backend cannot
+            # abstract the term, which callers such as simplify() handle by keeping the original expression
+            raise BackendError(f"unknown decl op {z3_op_nums[decl_num]}")
         op_name = op_map[z3_op_nums[decl_num]]
 
         num_args = z3.Z3_get_app_num_args(ctx, ast)
@@ -709,7 +711,9 @@ class BackendZ3(Backend):
         if decl_num not in z3_op_nums:
             raise ClaripyError(f"unknown decl kind {decl_num}")
         if op_map.get(z3_op_nums[decl_num]) is None:
-            raise ClaripyError(f"unknown decl op {z3_op_nums[decl_num]}")
+            # claripy has no AST for this Z3 operator (e.g. sequence and integer operators): this backend cannot
+            # abstract the term, which callers such as simplify() handle by keeping the original expression
+            raise BackendError(f"unknown decl op {z3_op_nums[decl_num]}")
         op_name = op_map[z3_op_nums[decl_num]]
 
         if op_name == "BitVecVal":
